@@ -365,17 +365,35 @@ impl VirtualRecv {
     /// a socket address that is registered in `expected_responses` for the duration of the call
     /// (a garbage datagram from it is used to learn that the first one has been processed).
     pub async fn deliver(&mut self, src: SocketAddr, data: Vec<u8>, barrier: SocketAddr) -> Option<RecvOutcome> {
+        self.deliver_reporting_source(src, data, barrier).await.map(|r| r.0)
+    }
+
+    /// Like `deliver`; also reports the source address `handle_inbound` attached to what it
+    /// handed on (`InboundPacket::src_address` / `UnrecognizedFrame::src_address`).
+    pub async fn deliver_reporting_source(
+        &mut self,
+        src: SocketAddr,
+        data: Vec<u8>,
+        barrier: SocketAddr,
+    ) -> Option<(RecvOutcome, Option<SocketAddr>)> {
         use crate::socket::recv::RecvPacket;
         self.inject.send((src, data)).await.ok()?;
         self.inject.send((barrier, vec![0u8; 3])).await.ok()?;
         let mut outcome = RecvOutcome::Dropped;
+        let mut reported = None;
         loop {
             match self.out.recv().await? {
                 RecvPacket::UnrecognizedFrame(f) if f.src_address == barrier && f.packet.len() == 3 => {
-                    return Some(outcome)
+                    return Some((outcome, reported))
                 }
-                RecvPacket::UnrecognizedFrame(_) => outcome = RecvOutcome::Unrecognized,
-                RecvPacket::Inbound(_) => outcome = RecvOutcome::Inbound,
+                RecvPacket::UnrecognizedFrame(f) => {
+                    outcome = RecvOutcome::Unrecognized;
+                    reported = Some(f.src_address);
+                }
+                RecvPacket::Inbound(p) => {
+                    outcome = RecvOutcome::Inbound;
+                    reported = Some(p.src_address);
+                }
             }
         }
     }
